@@ -1,5 +1,5 @@
 """C37 DNS message decoding is memory-safe and faithful."""
-import os, shlex, subprocess
+import os, shlex, struct, subprocess
 from vf.util import VERIF, hx, unhx
 from vf.harness import ProcHarness
 from vf.stage import BuildError
@@ -8,6 +8,44 @@ ID = "C37"
 PROP_MODULE = "SquidModel.Properties.C37"
 MODEL = "c37"
 GEN = ["dns_limits"]
+RULE = ("m <hex> [expect]: rfc1035MessageUnpack on an exact-size heap copy (messages from a reference encoder with random names, "
+        "A/AAAA/PTR/CNAME/other records, random/maximal/no compression, trailing sections; boundary packets: label 62..64, name "
+        "253..257 octets, pointer chains 1..67 deep, pointer loops, pointers at the packet end, rdlength +-1, counts 0/2/65535, "
+        "rcode 1..15; mutations: truncation at every offset, every byte value at every offset of reference packets (thorough), "
+        "flips, pointer injection, count tweaks, splices; random datagrams); n <ns> <off> <hex>: static rfc1035NameUnpack with an "
+        "exact-size name buffer (all strings <=3 (quick) / <=5 (thorough) over an 8-symbol alphabet x ns x off, random names x ns "
+        "around the name size); q ...: query builders of rfc1035.cc/rfc3596.cc into an exact-size buffer, then the real decoder; "
+        "h ...: header pack/unpack. non-trivial = the decoder got past the question (m), returned a name (n), built a packet (q/h); "
+        "distinct = distinct input lines")
+TRUSTED = ["modelled, not verified: memcpy/ntohs/htons/strtok/strlen/snprintf/xstrncpy are given their list/arithmetic meaning in "
+           "the model; the C bit-fields of rfc1035_message are modelled as range-restricted naturals; tied by the differential run",
+           "the literals 191, 64, 0x3FFF, 12, 10, 4 of rfc1035.cc are read from the source text by regular expressions, the macro "
+           "values are printed by the compiled harness"]
+ASSUMPTIONS = ["a datagram is shorter than 2^32 - 2^17 octets (`unsigned int off` cannot wrap); host names given to the query "
+               "builders are C strings (no NUL) and the packet buffer has room for header + name + 2 + 4 (+ 11 with EDNS) octets, "
+               "as in dns_internal.cc (RESOLV_BUFSZ vs NS_MAXDNAME)"]
+MANIFEST = {
+    "text": "full for decoding: the Lean model follows rfc1035HeaderUnpack/NameUnpack/QueryUnpack/RRUnpack/MessageUnpack branch by "
+            "branch with every buffer access explicit (an access outside the datagram or the name buffer is the outcome oob, a failed "
+            "assert is abort, an exhausted iteration budget is fuel) and it is proved for every byte list that none of the three "
+            "happens (compression loops included: the budget ns+66 always suffices) and that all offsets stay inside the datagram; "
+            "for every message in the encoder relation (labels 1..63, any compression pointers to encoded suffixes, at most 65 "
+            "pointer hops per name, names < 256 octets) the decoded header, question and A/AAAA/PTR/CNAME/other records equal the "
+            "encoded ones; header pack/unpack and the packed query round-trip. Three deviations are proved as counterexamples and "
+            "kept as known findings: a 66-hop compressed name is rejected, a pointer to the root label leaves a trailing dot, and "
+            "the EDNS OPT record is packed with memcpy(dst, NULL, 0). The real code runs under ASan/UBSan with exact-size heap "
+            "buffers against the model and against a reference encoder/strict decoder written from RFC 1035",
+    "note": "trusted: Lean kernel (+axioms as printed), translator of limits, harness, python reference codec; "
+            "specified not verified: libc primitives; not modelled: rfc1035QueryCompare, rfc1035ErrorMessage, heap management of "
+            "rfc1035MessageDestroy/RRDestroy (ASan only)",
+    "technique": "Lean 4 proof (induction on the iteration budget with a (name-room, recursion-depth) measure; encoder relation with "
+                 "compression) + constants translator + ASan/UBSan differential run with reference encoder and strict decoder",
+}
+
+MAXLABEL = 63
+NAMEBUF = 256
+MAXHOPS_IMPL = 65          # rfc1035NameUnpack follows at most this many compression pointers per name
+T_A, T_NS, T_CNAME, T_PTR, T_MX, T_TXT, T_AAAA, T_OPT = 1, 2, 5, 12, 15, 16, 28, 41
 
 
 def link_like_testdns(stage, objs, out):
@@ -47,9 +85,7 @@ def build_exe(stage):
         return stage.built["c37"]
     # harness/c37.cc #includes src/dns/rfc1035.cc (file-static rfc1035NameUnpack); rfc3596.cc and rfc2671.cc are compiled
     # from the stage with the sanitizers and precede the tree's (unsanitized) libdns.la in the link
-    # nonnull-attribute reports are made recoverable in this one translation unit: the harness hooks the report, marks the
-    # line's output with "ub:..." and goes on, so that the rest of the behaviour is still compared (every other check stays fatal)
-    objs = [stage.compile(os.path.join(VERIF, "harness", "c37.cc"), extra=["-fsanitize-recover=nonnull-attribute"]),
+    objs = [stage.compile(os.path.join(VERIF, "harness", "c37.cc")),
             stage.compile(os.path.join(VERIF, "harness", "c37_config.cc")),
             stage.compile("src/dns/rfc3596.cc"),
             stage.compile("src/dns/rfc2671.cc")]
@@ -57,3 +93,969 @@ def build_exe(stage):
     stage.built = getattr(stage, "built", {})
     stage.built["c37"] = exe
     return exe
+
+
+class Harness:
+    """ProcHarness without symbolised UBSan stacks (a sanitizer stop is still the result `abort:...` of its line)."""
+
+    def __init__(self, exe):
+        self.exe = exe
+        self.crashes = 0
+
+    def run(self, lines):
+        h = ProcHarness([self.exe], env={"UBSAN_OPTIONS": "print_stacktrace=0:halt_on_error=1:exitcode=86"})
+        out = h.run(lines)
+        self.crashes += h.crashes
+        self.last_stderr = getattr(h, "last_stderr", "")
+        return out
+
+
+def build(stage):
+    return Harness(build_exe(stage))
+
+
+# ---------------------------------------------------------------- canonical text of a decoded message (same as harness/c37.cc)
+
+def show_hdr(h):
+    return "id=%d qr=%d op=%d aa=%d tc=%d rd=%d ra=%d rcode=%d qd=%d an=%d ns=%d ar=%d" % (
+        h["id"], h["qr"], h["opcode"], h["aa"], h["tc"], h["rd"], h["ra"], h["rcode"], h["qd"], h["an"], h["ns"], h["ar"])
+
+
+def show_rr(r):
+    return "%s/%d/%d/%d/%d/%s" % (hx(r["name"]), r["type"], r["cls"], r["ttl"], r["rdlength"], hx(r["rdata"]))
+
+
+def show_msg(rc, h, q, rrs):
+    return "rc=%d %s q=%s/%d/%d rr=%s" % (rc, show_hdr(h), hx(q["name"]), q["qtype"], q["qclass"],
+                                         ",".join(show_rr(r) for r in rrs) if rrs else "-")
+
+
+def show_decoded(h, q, rrs):
+    """what a faithful decoder returns for a well-formed message with these header/question/answer records"""
+    if h["rcode"]:
+        return show_msg(-h["rcode"], h, q, [])
+    if h["an"] == 0:
+        return show_msg(0, h, q, [])
+    return show_msg(len(rrs), h, q, rrs)
+
+
+# ---------------------------------------------------------------- reference codec, written from RFC 1035 (independent of squid and of the model)
+
+def join(labels):
+    return b".".join(labels)
+
+
+def presentable(labels):
+    return all(1 <= len(l) <= MAXLABEL and b"." not in l and b"\0" not in l for l in labels)
+
+
+class Enc:
+    """Reference encoder. comp: 0 = never compress, 1..99 = chance in percent per compressible suffix, 100 = always."""
+
+    def __init__(self, rng, comp):
+        self.b = bytearray()
+        self.rng = rng
+        self.comp = comp
+        self.suffix = {}
+
+    def u16(self, v):
+        self.b += struct.pack(">H", v & 0xffff)
+
+    def u32(self, v):
+        self.b += struct.pack(">I", v & 0xffffffff)
+
+    def name(self, labels):
+        for i in range(len(labels)):
+            suf = tuple(labels[i:])
+            at = self.suffix.get(suf)
+            if at is not None and self.comp and (self.comp >= 100 or self.rng.below(100) < self.comp):
+                self.u16(0xC000 | at)
+                return
+            if suf not in self.suffix and len(self.b) < 0x4000:
+                self.suffix[suf] = len(self.b)
+            self.b.append(len(labels[i]))
+            self.b += labels[i]
+        self.b.append(0)
+
+    def parts(self, parts):
+        """explicit layout: ("l", bytes) label, ("p", offset) pointer, ("0",) root, ("b", bytes) raw"""
+        for p in parts:
+            if p[0] == "l":
+                self.b.append(len(p[1]) & 0xff)
+                self.b += p[1]
+            elif p[0] == "p":
+                self.u16(0xC000 | (p[1] & 0x3fff))
+            elif p[0] == "0":
+                self.b.append(0)
+            else:
+                self.b += p[1]
+
+    def header(self, h):
+        flags = (h["qr"] << 15) | (h["opcode"] << 11) | (h["aa"] << 10) | (h["tc"] << 9) | (h["rd"] << 8) | (h["ra"] << 7) | \
+                (h.get("z", 0) << 4) | h["rcode"]
+        for v in (h["id"], flags, h["qd"], h["an"], h["ns"], h["ar"]):
+            self.u16(v)
+
+    def rr(self, r):
+        """r: labels|parts, type, cls, ttl, rdata = ("raw", bytes) | ("name", labels) | ("parts", parts); -> decoded view"""
+        if "parts" in r:
+            self.parts(r["parts"])
+        else:
+            self.name(r["labels"])
+        self.u16(r["type"])
+        self.u16(r["cls"])
+        self.u32(r["ttl"])
+        at = len(self.b)
+        self.u16(0)
+        kind = r["rdata"][0]
+        if kind == "raw":
+            self.b += r["rdata"][1]
+        elif kind == "name":
+            self.name(r["rdata"][1])
+        else:
+            self.parts(r["rdata"][1])
+        n = len(self.b) - at - 2
+        n = r.get("rdlength", n)
+        self.b[at:at + 2] = struct.pack(">H", n & 0xffff)
+        raw = bytes(self.b[at + 2:at + 2 + n])
+        name = join(r["name_labels"] if "name_labels" in r else r["labels"])
+        if r["type"] == T_PTR and kind != "raw":
+            tl = r["rdata_labels"] if "rdata_labels" in r else r["rdata"][1]
+            return {"name": name, "type": r["type"], "cls": r["cls"], "ttl": r["ttl"],
+                    "rdlength": sum(len(l) + 1 for l in tl), "rdata": join(tl)}
+        return {"name": name, "type": r["type"], "cls": r["cls"], "ttl": r["ttl"], "rdlength": n, "rdata": raw}
+
+
+class NotWF(Exception):
+    pass
+
+
+def ref_name(pkt, off):
+    """Strict RFC 1035 reading of the name at `off`: labels of 1..63 octets, a compression pointer must point to a prior
+    occurrence (before the start of the label sequence being read), at most 255 octets in all.
+    -> (labels, end of the name in the linear stream, pointer hops, pointer-led-to-root-after-a-label)"""
+    labels, hops, end, seg, pos, at_hop = [], 0, None, off, off, None
+    while True:
+        if pos >= len(pkt):
+            raise NotWF()
+        c = pkt[pos]
+        if c >= 0xC0:
+            if pos + 2 > len(pkt):
+                raise NotWF()
+            tgt = ((c & 0x3f) << 8) | pkt[pos + 1]
+            if end is None:
+                end = pos + 2
+            if tgt >= seg:
+                raise NotWF()
+            hops += 1
+            at_hop = len(labels)
+            pos = seg = tgt
+            continue
+        if c > MAXLABEL:
+            raise NotWF()
+        if c == 0:
+            if end is None:
+                end = pos + 1
+            break
+        if pos + 1 + c > len(pkt):
+            raise NotWF()
+        labels.append(bytes(pkt[pos + 1:pos + 1 + c]))
+        pos += 1 + c
+    if sum(len(l) + 1 for l in labels) + 1 > 255:
+        raise NotWF()
+    return labels, end, hops, (at_hop is not None and at_hop == len(labels) and len(labels) > 0)
+
+
+def ref_decode(pkt):
+    """Strict reading of header, question and all `ancount` answer records; None when the datagram is not a well-formed
+    message in that sense (or a label is not presentable as text: contains '.' or NUL)."""
+    try:
+        if len(pkt) < 12:
+            raise NotWF()
+        idv, flags, qd, an, ns, ar = struct.unpack(">HHHHHH", bytes(pkt[:12]))
+        h = {"id": idv, "qr": flags >> 15, "opcode": (flags >> 11) & 15, "aa": (flags >> 10) & 1, "tc": (flags >> 9) & 1,
+             "rd": (flags >> 8) & 1, "ra": (flags >> 7) & 1, "rcode": flags & 15, "qd": qd, "an": an, "ns": ns, "ar": ar}
+        if qd != 1:
+            raise NotWF()
+        info = {"hops": 0, "rootptr": [], "deep": []}
+
+        def name_at(off, what):
+            labels, end, hops, rootptr = ref_name(pkt, off)
+            if not presentable(labels):
+                raise NotWF()
+            info["hops"] = max(info["hops"], hops)
+            if rootptr:
+                info["rootptr"].append(what)
+            if hops > MAXHOPS_IMPL:
+                info["deep"].append(what)
+            return labels, end
+        ql, off = name_at(12, ("q",))
+        if off + 4 > len(pkt):
+            raise NotWF()
+        qt, qc = struct.unpack(">HH", bytes(pkt[off:off + 4]))
+        off += 4
+        q = {"name": join(ql), "qtype": qt, "qclass": qc}
+        rrs = []
+        if h["rcode"] == 0:
+            for i in range(an):
+                nl, off = name_at(off, ("n", i))
+                if off + 10 > len(pkt):
+                    raise NotWF()
+                ty, cl, ttl, rdl = struct.unpack(">HHIH", bytes(pkt[off:off + 10]))
+                off += 10
+                if off + rdl > len(pkt):
+                    raise NotWF()
+                if ty == T_PTR:
+                    tl, end = name_at(off, ("d", i))
+                    if end != off + rdl:
+                        raise NotWF()
+                    rrs.append({"name": join(nl), "type": ty, "cls": cl, "ttl": ttl,
+                                "rdlength": sum(len(l) + 1 for l in tl), "rdata": join(tl)})
+                else:
+                    rrs.append({"name": join(nl), "type": ty, "cls": cl, "ttl": ttl, "rdlength": rdl, "rdata": bytes(pkt[off:off + rdl])})
+                off += rdl
+        return {"h": h, "q": q, "rrs": rrs, "info": info, "show": show_decoded(h, q, rrs)}
+    except NotWF:
+        return None
+
+
+def known_deviation(ref):
+    """The two proved deviations of rfc1035NameUnpack from the strict reading, applied to a reference decoding:
+    -> (finding id, text the real decoder is expected to print) or None."""
+    info = ref["info"]
+    h, q, rrs = ref["h"], ref["q"], ref["rrs"]
+    if info["deep"]:
+        # a name needing more than 65 pointer hops is refused: the question -> no message; record i -> records before it
+        first = min((-1 if w[0] == "q" else w[1]) for w in info["deep"])
+        if first < 0:
+            return "C37-deep-pointer-chain-rejected", "rc=-15 null"
+        if h["rcode"]:
+            return None
+        kept = rrs[:first]
+        return "C37-deep-pointer-chain-rejected", (show_msg(len(kept), h, q, kept) if kept else "rc=-15 null")
+    if info["rootptr"]:
+        q2 = dict(q)
+        rr2 = [dict(r) for r in rrs]
+        for w in info["rootptr"]:
+            if w[0] == "q":
+                q2["name"] = q2["name"] + b"."
+            elif w[0] == "n":
+                rr2[w[1]]["name"] = rr2[w[1]]["name"] + b"."
+            else:
+                rr2[w[1]]["rdata"] = rr2[w[1]]["rdata"] + b"."
+        return "C37-pointer-to-root-trailing-dot", show_decoded(h, q2, rr2)
+    return None
+
+
+# ---------------------------------------------------------------- query builders: reference
+
+def host_labels(host):
+    return [l for l in host.split(b".") if l]
+
+
+def wf_host(host):
+    ls = host_labels(host)
+    return b"\0" not in host and all(len(l) <= MAXLABEL for l in ls) and sum(len(l) + 1 for l in ls) + 1 <= 255
+
+
+def query_size(host, edns):
+    return 12 + sum(min(len(l), MAXLABEL) + 1 for l in host_labels(host)) + 1 + 4 + (11 if edns > 0 else 0)
+
+
+def ref_query(host, qid, qtype, edns):
+    b = struct.pack(">HHHHHH", qid, 0x0100, 1, 0, 0, 1 if edns > 0 else 0)
+    for l in host_labels(host):
+        b += bytes([len(l)]) + l
+    b += b"\0" + struct.pack(">HH", qtype & 0xffff, 1)
+    if edns > 0:
+        b += b"\0" + struct.pack(">HHIH", T_OPT, min(edns, 16384 - 1), 0, 0)
+    return b
+
+
+def rev4(addr):
+    return ("%d.%d.%d.%d.in-addr.arpa." % (addr[3], addr[2], addr[1], addr[0])).encode()
+
+
+def rev6(addr):
+    return "".join("%x.%x." % (addr[i] & 15, addr[i] >> 4) for i in range(15, -1, -1)).encode() + b"ip6.arpa."
+
+
+def q_parse(toks):
+    """-> (host, qtype, edns given to the packer, sz, qid)"""
+    api, qid, edns, sz, arg = toks[1], int(toks[2]), int(toks[3]), int(toks[4]), unhx(toks[5])
+    if api in ("p35", "p496"):
+        host, qtype = rev4(arg), T_PTR
+    elif api == "p696":
+        host, qtype = rev6(arg), T_PTR
+    elif api == "aaaa96":
+        host, qtype = arg, T_AAAA
+    elif api.startswith("host96:"):
+        host, qtype = arg, int(api[7:])
+    else:
+        host, qtype = arg, T_A
+    return host, qtype, edns, sz, qid
+
+
+# ---------------------------------------------------------------- generators
+
+LABEL_ALPHA = bytes(c for c in range(1, 256) if c != 0x2e)
+LDH = b"abcdefghijklmnopqrstuvwxyz0123456789-"
+
+
+def rand_label(rng, maxlen=12):
+    k = rng.below(10)
+    n = rng.range(1, maxlen) if k else rng.choice([1, 62, 63])
+    return rng.bytes(n, LDH if rng.below(4) else LABEL_ALPHA)
+
+
+def rand_zone(rng):
+    """a pool of names sharing suffixes, so that compression has something to point at"""
+    bases = []
+    for _ in range(rng.range(1, 3)):
+        bases.append([rand_label(rng, 8) for _ in range(rng.range(0, 3))])
+    names = []
+    for _ in range(rng.range(3, 8)):
+        base = rng.choice(bases)
+        n = [rand_label(rng) for _ in range(rng.range(0, 3))] + base
+        while sum(len(l) + 1 for l in n) + 1 > 255:
+            n = n[1:]
+        names.append(n)
+    return names
+
+
+def rand_header(rng, an, rcode=None):
+    return {"id": rng.below(65536), "qr": rng.below(2) if rng.below(8) == 0 else 1, "opcode": rng.below(16) if rng.below(6) == 0 else 0,
+            "aa": rng.below(2), "tc": 1 if rng.below(10) == 0 else 0, "rd": rng.below(2), "ra": rng.below(2), "z": rng.below(8) if rng.below(4) == 0 else 0,
+            "rcode": ((rng.choice([3, 2, rng.below(16)]) if rng.below(10) == 0 else 0) if rcode is None else rcode),
+            "qd": 1, "an": an, "ns": 0, "ar": 0}
+
+
+def rand_rr(rng, names, ptr_bias=False):
+    k = rng.below(10)
+    labels = rng.choice(names)
+    ttl = rng.choice([0, 1, 60, 3600, 0x7fffffff, 0x80000000, 0xffffffff, rng.below(1 << 32)])
+    cls = 1 if rng.below(8) else rng.below(65536)
+    if ptr_bias and k < 6:
+        k = 5
+    if k < 3:
+        return {"labels": labels, "type": T_A, "cls": cls, "ttl": ttl, "rdata": ("raw", rng.bytes(4))}
+    if k < 5:
+        return {"labels": labels, "type": T_AAAA, "cls": cls, "ttl": ttl, "rdata": ("raw", rng.bytes(16))}
+    if k < 7:
+        return {"labels": labels, "type": T_PTR, "cls": cls, "ttl": ttl, "rdata": ("name", rng.choice(names))}
+    if k < 9:
+        return {"labels": labels, "type": T_CNAME, "cls": cls, "ttl": ttl, "rdata": ("name", rng.choice(names))}
+    ty = rng.choice([T_NS, T_MX, T_TXT, T_OPT, 0, 255, 65535, rng.below(65536)])
+    if ty == T_PTR:
+        ty = T_TXT
+    return {"labels": labels, "type": ty, "cls": cls, "ttl": ttl, "rdata": ("raw", rng.bytes(rng.choice([0, 1, 2, 5, 40])))}
+
+
+def gen_valid(rng):
+    """-> (packet, expected text of the decoding)"""
+    names = rand_zone(rng)
+    an = rng.choice([0, 1, 1, 2, 3, 4, 6])
+    h = rand_header(rng, an)
+    comp = rng.choice([0, 100, 100, 50, 20])
+    e = Enc(rng, comp)
+    extra = [rand_rr(rng, names) for _ in range(rng.choice([0, 0, 1, 2, 3]))]
+    h["ns"] = rng.below(len(extra) + 1)
+    h["ar"] = len(extra) - h["ns"]
+    q = {"labels": rng.choice(names), "qtype": rng.choice([T_A, T_AAAA, T_PTR, T_CNAME, 255, rng.below(65536)]), "qclass": 1 if rng.below(8) else rng.below(65536)}
+    e.header(h)
+    e.name(q["labels"])
+    e.u16(q["qtype"])
+    e.u16(q["qclass"])
+    rrs = [e.rr(rand_rr(rng, names, ptr_bias=(q["qtype"] == T_PTR))) for _ in range(an)]
+    for r in extra:
+        e.rr(r)
+    if rng.below(6) == 0:
+        e.b += rng.bytes(rng.range(1, 8))    # trailing garbage is not the decoder's business
+    return bytes(e.b), show_decoded(h, {"name": join(q["labels"]), "qtype": q["qtype"], "qclass": q["qclass"]}, rrs)
+
+
+def with_expect(pkt, text):
+    return "m %s %s" % (hx(pkt), text.replace(" ", "|"))
+
+
+def simple_packet(rng, qlabels, rrs, rcode=0, an=None, comp=100, tail=b"", qparts=None):
+    """header + one question + the given records through the reference encoder -> (packet, expected, encoder)"""
+    h = rand_header(rng, len(rrs) if an is None else an, rcode=rcode)
+    e = Enc(rng, comp)
+    e.header(h)
+    if qparts is not None:
+        e.parts(qparts)
+    else:
+        e.name(qlabels)
+    e.u16(T_A)
+    e.u16(1)
+    dec = [e.rr(r) for r in rrs]
+    e.b += tail
+    return bytes(e.b), show_decoded(h, {"name": join(qlabels), "qtype": T_A, "qclass": 1}, dec), e
+
+
+def chain_packet(rng, depth, kind):
+    """Names needing `depth` pointer hops. kind "labels": record j's owner = one label + pointer to record j-1's owner
+    (hops = j); kind "bare": owner = bare pointer to the previous owner (pointer-to-pointer chain); the last record is a
+    PTR whose target is one more hop away when kind == "ptr"."""
+    h = rand_header(rng, depth, rcode=0)
+    e = Enc(rng, 0)
+    e.header(h)
+    e.name([b"z"])
+    e.u16(T_A)
+    e.u16(1)
+    prev_at, prev_labels = 12, [b"z"]
+    rrs = []
+    for j in range(1, depth + 1):
+        at = len(e.b)
+        if kind == "bare":
+            parts, labels = [("p", prev_at)], prev_labels
+        else:
+            lab = bytes([97 + j % 26])
+            parts, labels = [("l", lab), ("p", prev_at)], [lab] + prev_labels
+        if kind == "ptr" and j == depth:
+            r = {"parts": [("p", 12)], "name_labels": [b"z"], "type": T_PTR, "cls": 1, "ttl": j,
+                 "rdata": ("parts", parts), "rdata_labels": labels}
+        else:
+            r = {"parts": parts, "name_labels": labels, "type": T_A, "cls": 1, "ttl": j, "rdata": ("raw", bytes([10, 0, j >> 8, j & 255]))}
+        rrs.append(e.rr(r))
+        prev_at, prev_labels = at, labels
+    return bytes(e.b), show_decoded(h, {"name": b"z", "qtype": T_A, "qclass": 1}, rrs)
+
+
+def gen_boundary(rng, tier):
+    out = []
+
+    def A(labels, ttl=1):
+        return {"labels": labels, "type": T_A, "cls": 1, "ttl": ttl, "rdata": ("raw", b"\x7f\0\0\1")}
+
+    def PTR(labels, target, **kw):
+        r = {"labels": labels, "type": T_PTR, "cls": 1, "ttl": 7, "rdata": ("name", target)}
+        r.update(kw)
+        return r
+    # label sizes 1, 62, 63 in the question, an owner name and a PTR target
+    for n in (1, 62, 63):
+        lab = bytes([120]) * n
+        pkt, exp, _ = simple_packet(rng, [lab, b"com"], [A([lab, b"com"]), PTR([b"q"], [lab, b"net"])], comp=rng.choice([0, 100]))
+        out.append(with_expect(pkt, exp))
+    # name sizes: 253, 254, 255 octets on the wire are legal names; 256 and 257 are not (no expectation: model and safety only)
+    for last in (59, 60, 61, 62, 63):
+        labels = [b"a" * 63, b"b" * 63, b"c" * 63, b"d" * last]
+        wire = sum(len(l) + 1 for l in labels) + 1
+        for comp in (0, 100):
+            pkt, exp, _ = simple_packet(rng, labels, [A(labels), PTR([b"p"], labels)], comp=comp)
+            out.append(with_expect(pkt, exp) if wire <= 255 else "m " + hx(pkt))
+    # 127 one-octet labels (255 octets), and one more
+    for n in (126, 127, 128):
+        labels = [bytes([97 + i % 26]) for i in range(n)]
+        pkt, exp, _ = simple_packet(rng, labels, [PTR(labels[-3:], labels)], comp=rng.choice([0, 100]))
+        out.append(with_expect(pkt, exp) if n <= 127 else "m " + hx(pkt))
+    # pointer chains: at most 65 hops are followed
+    depths = [1, 2, 3, 10, 63, 64, 65, 66, 67] if tier == "thorough" else [1, 2, 10, 64, 65, 66]
+    for d in depths:
+        for kind in ("labels", "bare", "ptr"):
+            pkt, exp = chain_packet(rng, d, kind)
+            out.append(with_expect(pkt, exp))
+    # pointer loops and stray pointers in the question / owner / PTR target
+    hdr = struct.pack(">HHHHHH", 0x1234, 0x8180, 1, 1, 0, 0)
+    tail = b"\0\1\0\1"
+    loops = [
+        b"\xc0\x0c",                       # points at itself
+        b"\xc0\x0e\xc0\x0c",               # two-cycle
+        b"\x01a\xc0\x0c",                  # label then back to the start: grows until the name buffer is full
+        b"\x3fa" + b"b" * 62 + b"\xc0\x0c",
+        b"\x01a\xc0\x0d",                  # into the middle of the label
+        b"\xc0\x0d",                       # into its own second octet
+        b"\xff\xff", b"\xc0", b"\xc0\xff", b"\x40", b"\x80x", b"\xbf", b"\x01",
+        b"\x02a", b"\x01a", b"\x00",
+    ]
+    for l in loops:
+        out.append("m " + hx(hdr + l + tail))
+        out.append("m " + hx(hdr + l))
+        rr = b"\xc0\x0c" + struct.pack(">HHIH", T_PTR, 1, 5, len(l)) + l
+        out.append("m " + hx(hdr + b"\x01q\0" + tail + rr))
+        out.append("m " + hx(hdr + b"\x01q\0" + tail + l + struct.pack(">HHIH", T_A, 1, 5, 4) + b"\1\2\3\4"))
+    # a pointer whose target is the last octet / one past the end / far away
+    for tgt_delta in (-1, 0, 1, 1000):
+        base = hdr + b"\x01q\0" + tail
+        rr_at = len(base)
+        total = rr_at + 2 + 10 + 4
+        tgt = max(0, min(0x3fff, total + tgt_delta))
+        out.append("m " + hx(base + struct.pack(">H", 0xC000 | tgt) + struct.pack(">HHIH", T_A, 1, 5, 4) + b"\1\2\3\4"))
+    # rdlength against the end of the datagram and against the PTR name
+    base = hdr + b"\x03foo\x03bar\0" + tail
+    name = b"\x03abc\xc0\x10"
+    for d in (-2, -1, 0, 1, 2):
+        rdl = len(name) + d
+        out.append("m " + hx(base + b"\xc0\x0c" + struct.pack(">HHIH", T_PTR, 1, 5, max(0, rdl)) + name))
+        out.append("m " + hx(base + b"\xc0\x0c" + struct.pack(">HHIH", T_PTR, 1, 5, max(0, rdl)) + name + b"\0\0"))
+        out.append("m " + hx(base + b"\xc0\x0c" + struct.pack(">HHIH", T_A, 1, 5, max(0, 4 + d)) + b"\1\2\3\4"))
+        out.append("m " + hx(base + b"\xc0\x0c" + struct.pack(">HHIH", T_CNAME, 1, 5, max(0, rdl)) + name))
+    for rdl in (0, 1, 255, 256, 65535):
+        out.append("m " + hx(base + b"\xc0\x0c" + struct.pack(">HHIH", T_A, 1, 5, rdl) + b"\1" * min(rdl, 300)))
+        out.append("m " + hx(base + b"\xc0\x0c" + struct.pack(">HHIH", T_PTR, 1, 5, rdl) + b"\0" * min(rdl, 300)))
+    # counts and rcodes
+    for qd in (0, 1, 2, 65535):
+        for an in (0, 1, 2, 3):
+            pkt = struct.pack(">HHHHHH", 7, 0x8180, qd, an, 0, 0) + b"\x01q\0" + tail + (b"\xc0\x0c" + struct.pack(">HHIH", T_A, 1, 5, 4) + b"\1\2\3\4") * 2
+            out.append("m " + hx(pkt))
+    for rcode in range(0, 16):
+        pkt, exp, _ = simple_packet(rng, [b"r", b"code"], [A([b"r", b"code"])] * rng.below(3), rcode=rcode)
+        out.append(with_expect(pkt, exp))
+        out.append("m " + hx(pkt[:12 + 8]))
+    out.append("m " + hx(struct.pack(">HHHHHH", 7, 0x8180, 1, 65535, 65535, 65535) + b"\x01q\0" + tail + b"\xc0\x0c" + struct.pack(">HHIH", T_A, 1, 5, 4) + b"\1\2\3\4"))
+    # header sizes
+    for n in (0, 1, 11, 12, 13, 16, 17):
+        out.append("m " + hx((struct.pack(">HHHHHH", 7, 0x8180, 1, 0, 0, 0) + b"\0" + tail)[:n]))
+    # pointer to a root label (known deviation: trailing dot), and a bare pointer to root (decodes to the empty name)
+    pkt, exp, e = simple_packet(rng, [b"q"], [])
+    root_at = 12 + 2
+    hh = rand_header(rng, 2, rcode=0)
+    e = Enc(rng, 0)
+    e.header(hh)
+    e.name([b"q"])
+    e.u16(T_A)
+    e.u16(1)
+    r1 = e.rr({"parts": [("l", b"foo"), ("p", root_at)], "name_labels": [b"foo"], "type": T_A, "cls": 1, "ttl": 3, "rdata": ("raw", b"\1\2\3\4")})
+    r2 = e.rr({"parts": [("p", root_at)], "name_labels": [], "type": T_PTR, "cls": 1, "ttl": 3,
+               "rdata": ("parts", [("l", b"host"), ("l", b"example"), ("p", root_at)]), "rdata_labels": [b"host", b"example"]})
+    out.append(with_expect(bytes(e.b), show_decoded(hh, {"name": b"q", "qtype": T_A, "qclass": 1}, [r1, r2])))
+    hh = rand_header(rng, 1, rcode=0)
+    e = Enc(rng, 0)
+    e.header(hh)
+    e.name([])
+    e.u16(T_A)
+    e.u16(1)
+    r1 = e.rr({"parts": [("p", 12)], "name_labels": [], "type": T_PTR, "cls": 1, "ttl": 3, "rdata": ("parts", [("p", 12)]), "rdata_labels": []})
+    out.append(with_expect(bytes(e.b), show_decoded(hh, {"name": b"", "qtype": T_A, "qclass": 1}, [r1])))
+    # labels that are not text (NUL, dot): memory safety and model agreement only
+    for lab in (b"a.b", b"a\0b", b"\0", b".", b"..", b"\0\0\0"):
+        pkt, exp, _ = simple_packet(rng, [lab, b"x"], [PTR([lab], [b"y", lab])], comp=rng.choice([0, 100]))
+        out.append("m " + hx(pkt))
+    return out
+
+
+def mutate(rng, pkt):
+    b = bytearray(pkt)
+    k = rng.below(9)
+    if not b:
+        return bytes(b)
+    if k == 0:
+        for _ in range(rng.range(1, 3)):
+            b[rng.below(len(b))] ^= 1 << rng.below(8)
+    elif k == 1:
+        b[rng.below(len(b))] = rng.choice([0, 1, 63, 64, 0xbf, 0xc0, 0xff, rng.below(256)])
+    elif k == 2:
+        return bytes(b[:rng.below(len(b) + 1)])
+    elif k == 3 and len(b) >= 2:     # inject a pointer
+        i = rng.below(len(b) - 1)
+        tgt = rng.choice([i, i + 1, max(0, i - 1), 12, rng.below(len(b) + 2), len(b) - 1, len(b)])
+        b[i:i + 2] = struct.pack(">H", 0xC000 | (tgt & 0x3fff))
+    elif k == 4 and len(b) >= 12:    # counts
+        # (a large ancount makes the decoder allocate ancount * sizeof(rfc1035_rr) = up to 18 MB: kept rare, it is slow under ASan)
+        f = rng.choice([4, 6, 8, 10])
+        big = rng.below(12 if f == 6 else 2) == 0
+        b[f:f + 2] = struct.pack(">H", rng.choice([255, 256, 65535, rng.below(65536)]) if big else rng.choice([0, 1, 2, 3, 4, 5]))
+    elif k == 5:                     # duplicate a slice
+        i = rng.below(len(b))
+        j = rng.range(i, min(len(b), i + 20))
+        b[j:j] = b[i:j]
+    elif k == 6:                     # delete a slice
+        i = rng.below(len(b))
+        del b[i:rng.range(i, min(len(b), i + 6))]
+    elif k == 7 and len(b) > 12:     # a length octet / rdlength +-1
+        i = rng.range(12, len(b) - 1)
+        b[i] = (b[i] + rng.choice([1, 255])) & 255
+    else:
+        i = rng.below(len(b))
+        b[i:i] = rng.bytes(rng.range(1, 4), bytes([0, 1, 2, 63, 64, 0xc0, 0x0c, 0xff, 97]))
+    return bytes(b)
+
+
+NAME_ALPHA = [0x00, 0x01, 0x02, 0x03, 0xc0, 0x40, 0x61, 0xff]
+
+
+def name_scope(maxlen):
+    """every string up to maxlen over NAME_ALPHA x name-buffer sizes x start offsets"""
+    def rec(prefix, n):
+        if n == 0:
+            yield prefix
+            return
+        for c in NAME_ALPHA:
+            yield from rec(prefix + bytes([c]), n - 1)
+    for n in range(0, maxlen + 1):
+        for s in rec(b"", n):
+            for ns in (1, 2, 3, 4, 6):
+                for off in (0, 1):
+                    if off <= n:
+                        yield "n %d %d %s" % (ns, off, hx(s))
+
+
+def rand_name_line(rng):
+    """an encoded name (sometimes compressed, sometimes broken) and a name buffer around its size"""
+    e = Enc(rng, rng.choice([0, 100, 50]))
+    e.b += rng.bytes(rng.range(0, 4))
+    names = rand_zone(rng)
+    for n in names[:-1]:
+        e.name(n)
+    off = len(e.b)
+    labels = names[-1]
+    e.name(labels)
+    e.b += rng.bytes(rng.range(0, 3))
+    pkt = bytes(e.b)
+    if rng.below(3) == 0:
+        pkt = mutate(rng, pkt)
+    total = sum(len(l) + 1 for l in labels)
+    ns = max(1, total + rng.choice([-2, -1, 0, 1, 2, 3, 10])) if rng.below(4) else rng.choice([1, 2, 63, 64, 255, 256, 257, 1000])
+    if rng.below(8) == 0:
+        off = rng.below(len(pkt) + 2)
+    return "n %d %d %s" % (ns, off, hx(pkt))
+
+
+def rand_host(rng):
+    k = rng.below(12)
+    if k < 7:
+        return join([rng.bytes(rng.range(1, 12), LDH) for _ in range(rng.range(1, 5))]) + (b"." if rng.below(5) == 0 else b"")
+    if k == 7:
+        return join([rng.bytes(rng.choice([1, 62, 63]), LDH) for _ in range(rng.range(1, 4))])
+    if k == 8:      # names of 253..255 octets on the wire
+        last = rng.choice([59, 60, 61])
+        return join([b"a" * 63, b"b" * 63, b"c" * 63, b"d" * last])
+    if k == 9:      # not well-formed host names: empty labels, long labels, long names
+        return rng.choice([b"", b".", b"..", b"a..b", b".a", b"a" * 64, b"a" * 64 + b".com", b"x." + b"b" * 200,
+                           join([b"a" * 63] * 4), join([b"a" * 63] * 5), join([b"ab"] * 100), b"a" * 300])
+    if k == 10:
+        return join([rng.bytes(rng.range(1, 6), LABEL_ALPHA) for _ in range(rng.range(1, 4))])
+    return rng.bytes(rng.range(0, 20), b"ab.-")
+
+
+def q_line(rng, force_edns=None):
+    api = rng.choice(["a35", "a35", "a96", "aaaa96", "p35", "p496", "p696", "host96:%d" % rng.choice([1, 28, 12, 255, 0, 65535, 65536 + 28])])
+    qid = rng.choice([0, 1, 0x1234, 65535, rng.below(65536)])
+    edns = rng.choice([0, 0, 0, 0, 0, 0, 0, -1, 1, 512, 4096, 16383, 16384, 65535, 100000]) if force_edns is None else force_edns
+    if api in ("p35", "p496"):
+        arg = rng.choice([bytes(4), b"\x7f\0\0\1", b"\xff\xff\xff\xff", rng.bytes(4)])
+    elif api == "p696":
+        arg = rng.choice([bytes(16), b"\xff" * 16, rng.bytes(16)])
+    else:
+        arg = rand_host(rng)
+    host = q_parse(["q", api, str(qid), str(edns), "0", hx(arg)])[0]
+    need = query_size(host, edns)
+    k = rng.below(10)
+    sz = need if k < 3 else rng.choice([512, need + 1, need + 100, 6000]) if k < 9 else rng.choice([0, 11, 12, 13, max(0, need - 30)])
+    # the window where the name fits but the four type/class octets (or the OPT record) do not is a violated precondition
+    # of the packers (they store before they assert): not generated
+    name_end = 12 + query_size(host, 0) - 16
+    if sz < need and sz >= name_end:
+        sz = need
+    return "q %s %d %d %d %s" % (api, qid, edns, sz, hx(arg))
+
+
+def h_line(rng):
+    v = [rng.choice([0, 1, 65535, rng.below(65536)]), rng.below(2), rng.below(16), rng.below(2), rng.below(2), rng.below(2), rng.below(2), rng.below(16)]
+    v += [rng.choice([0, 1, 65535, rng.below(65536)]) for _ in range(4)]
+    return "h " + " ".join(str(x) for x in v)
+
+
+def cases(rng, tier):
+    thorough = tier == "thorough"
+    # --- boundary packets
+    for l in gen_boundary(rng.fork("boundary"), tier):
+        yield l
+    # --- valid messages from the reference encoder, and mutants of them
+    r = rng.fork("valid")
+    nvalid = 12000 if thorough else 1500
+    keep = []
+    for i in range(nvalid):
+        pkt, exp = gen_valid(r)
+        yield with_expect(pkt, exp)
+        if len(keep) < (400 if thorough else 60):
+            keep.append(pkt)
+        for _ in range(2):
+            m = mutate(r, pkt)
+            if r.below(4) == 0:
+                m = mutate(r, m)
+            yield "m " + hx(m)
+    # --- truncation at every offset; every value at every offset
+    r = rng.fork("trunc")
+    for pkt in keep[:(120 if thorough else 8)]:
+        for n in range(len(pkt)):
+            yield "m " + hx(pkt[:n])
+    small = sorted(keep, key=len)
+    for pkt in small[:(3 if thorough else 1)]:
+        values = range(256) if thorough else (0, 1, 63, 64, 0xbf, 0xc0, 0xc1, 0xff, 12, len(pkt) - 1, len(pkt))
+        for i in range(len(pkt)):
+            for v in values:
+                if i == 6 and (v & 0xff) > 8:
+                    continue    # ancount >= 2304: 18 MB allocations, see mutate()
+                if v & 0xff != pkt[i]:
+                    yield "m " + hx(pkt[:i] + bytes([v & 0xff]) + pkt[i + 1:])
+    # --- splices of two messages
+    for i in range(400 if thorough else 60):
+        a, b = r.choice(keep), r.choice(keep)
+        yield "m " + hx(a[:r.below(len(a) + 1)] + b[r.below(len(b) + 1):])
+    # --- random datagrams behind a plausible header
+    for i in range(3000 if thorough else 300):
+        n = r.range(0, 60)
+        body = r.bytes(n, bytes([0, 0, 1, 2, 3, 12, 13, 14, 63, 64, 0xc0, 0xc0, 0xff, 97, 98]))
+        hdr = struct.pack(">HHHHHH", r.below(65536), r.choice([0x8180, 0x8180, 0x0100, r.below(65536)]), r.choice([1, 1, 1, 1, 0, 2]),
+                          r.choice([0, 1, 2, 3, 4]) if r.below(40) else 65535, r.below(3), r.below(3))
+        yield "m " + hx(hdr + body)
+    # --- rfc1035NameUnpack directly: exhaustive small scope, then random names around the buffer size
+    for l in name_scope(5 if thorough else 3):
+        yield l
+    r = rng.fork("names")
+    for i in range(20000 if thorough else 1500):
+        yield rand_name_line(r)
+    # --- query builders and header pack/unpack
+    r = rng.fork("pack")
+    for i in range(4000 if thorough else 500):
+        yield q_line(r)
+    for i in range(300 if thorough else 60):
+        yield q_line(r, force_edns=r.choice([1, 512, 1232, 4096, 16383, 16384, 65535]))
+    for i in range(2000 if thorough else 200):
+        yield h_line(r)
+    for rest in range(256) if thorough else ():
+        # every flag combination
+        yield "h 4660 %d %d %d %d %d %d %d 1 2 3 4" % (rest >> 7, (rest >> 3) & 15, (rest >> 2) & 1, (rest >> 1) & 1, rest & 1, (rest >> 4) & 1, (rest * 7) & 15)
+
+
+def exhaustive(tier):
+    return True   # all byte strings up to 3 (quick) / 5 (thorough) over the 8-symbol alphabet x ns x off for rfc1035NameUnpack
+
+
+# ---------------------------------------------------------------- oracle
+
+UB_WHY = "undefined behaviour: memcpy called with a null pointer"
+
+
+def split_ub(out):
+    if out.startswith("ub:"):
+        a, _, b = out.partition(" ")
+        return a, b
+    return None, out
+
+
+def parse_fields(text):
+    d = {}
+    for tk in text.split(" "):
+        if "=" in tk:
+            k, _, v = tk.partition("=")
+            d[k] = v
+    return d
+
+
+def oracle(line, impl):
+    toks = line.split(" ")
+    op = toks[0]
+    if impl.startswith("abort:"):
+        if op == "q":
+            host, qtype, edns, sz, qid = q_parse(toks)
+            if sz < query_size(host, edns) and "anitizer" not in impl:
+                return None     # assert(): the caller's buffer is too small
+        return "sanitizer/abort: " + impl
+    ub, body = split_ub(impl)
+    why = None
+    if op == "m":
+        why = oracle_m(toks, body)
+    elif op == "n":
+        why = oracle_n(toks, body)
+    elif op == "q":
+        why = oracle_q(toks, body)
+    elif op == "h":
+        why = oracle_h(toks, body)
+    if why:
+        return why
+    if ub:
+        return UB_WHY + " (" + ub + ")"
+    return None
+
+
+def oracle_m(toks, impl):
+    pkt = unhx(toks[1])
+    if not impl.startswith("rc="):
+        return "unparsable output " + impl[:80]
+    if len(toks) > 2:
+        exp = toks[2].replace("|", " ")
+        if impl != exp:
+            return "decoded message differs from the encoded one: expected " + exp[:300]
+    ref = ref_decode(pkt)
+    if ref is not None and impl != ref["show"]:
+        return "well-formed message (strict RFC 1035 reading) decoded differently: expected " + ref["show"][:300]
+    f = parse_fields(impl)
+    rc = int(f["rc"])
+    if impl.endswith(" null"):
+        if rc >= 0:
+            return "no message returned with a non-negative result"
+        return None
+    nrr = 0 if f["rr"] == "-" else len(f["rr"].split(","))
+    if rc > 0 and (nrr != rc or rc > int(f["an"])):
+        return "returned count does not match the records / exceeds ancount"
+    if rc < 0 and -rc != int(f["rcode"]):
+        return "negative result with a message is not -rcode"
+    if "!unterminated" in impl or "null" in f["rr"] or f["q"].startswith("null"):
+        return "unterminated name or missing rdata in a returned record"
+    return None
+
+
+def oracle_n(toks, impl):
+    ns, off, pkt = int(toks[1]), int(toks[2]), unhx(toks[3])
+    exp = None
+    try:
+        labels, end, hops, rootptr = ref_name(pkt, off)
+        total = sum(len(l) + 1 for l in labels)
+        if total < ns or (total == 0 and ns >= 1):
+            exp = "ok off=%d rdl=%d out=%s" % (end, total, hx(join(labels) + b"\0"))
+    except NotWF:
+        pass
+    if exp is not None and impl != exp:
+        return "well-formed name decoded differently: expected " + exp[:300]
+    if impl == "err":
+        return None
+    if not impl.startswith("ok "):
+        return "unparsable output " + impl[:80]
+    f = parse_fields(impl)
+    out = unhx(f["out"])
+    if len(out) > ns or not out.endswith(b"\0") or int(f["off"]) > len(pkt) or int(f["rdl"]) > ns:
+        return "name result outside its buffers"
+    return None
+
+
+def oracle_q(toks, impl):
+    host, qtype, edns, sz, qid = q_parse(toks)
+    if impl == "reject:nul":
+        return None if b"\0" in host else "NUL-free host rejected"
+    need = query_size(host, edns)
+    if sz < need:
+        return "packer did not stop although the buffer is too small"
+    if " dec: " not in impl:
+        return "unparsable output " + impl[:80]
+    first, _, dec = impl.partition(" dec: ")
+    f = parse_fields(first)
+    if int(f["len"]) != need:
+        return "packed length %s, expected %d" % (f["len"], need)
+    if f["query"] != "%s/%d/1" % (hx(host[:NAMEBUF - 1]), qtype & 0xffff):
+        return "query structure does not describe the request"
+    if not wf_host(host):
+        return None
+    pkt = unhx(f["pkt"])
+    if pkt != ref_query(host, qid, qtype, edns):
+        return "packed query differs from the reference encoding"
+    h = {"id": qid, "qr": 0, "opcode": 0, "aa": 0, "tc": 0, "rd": 1, "ra": 0, "rcode": 0, "qd": 1, "an": 0, "ns": 0, "ar": 1 if edns > 0 else 0}
+    exp = show_msg(0, h, {"name": join(host_labels(host)), "qtype": qtype & 0xffff, "qclass": 1}, [])
+    if dec != exp:
+        return "packed query does not decode back to itself: expected " + exp
+    return None
+
+
+def oracle_h(toks, impl):
+    v = [int(x) for x in toks[1:13]]
+    flags = (v[1] << 15) | (v[2] << 11) | (v[3] << 10) | (v[4] << 9) | (v[5] << 8) | (v[6] << 7) | v[7]
+    pkt = struct.pack(">HHHHHH", v[0], flags, v[8], v[9], v[10], v[11])
+    h = dict(zip(["id", "qr", "opcode", "aa", "tc", "rd", "ra", "rcode", "qd", "an", "ns", "ar"], v))
+    exp = "pkt=%s %s" % (hx(pkt), show_hdr(h))
+    return None if impl == exp else "header does not round-trip: expected " + exp
+
+
+def compare(line, impl, model):
+    mub, mbody = split_ub(model)
+    iub, ibody = split_ub(impl)
+    if iub and not mub:
+        return False
+    if mub:              # the model says the C code has undefined behaviour here: any behaviour of the real code is allowed
+        return True if ibody.startswith("abort:") else ibody == mbody
+    if model == "abort":
+        return impl.startswith("abort:") and "anitizer" not in impl
+    return impl == model
+
+
+def classify(line, impl, why):
+    toks = line.split(" ")
+    why = why or ""
+    if toks[0] == "q" and why.startswith(UB_WHY):
+        ub, _ = split_ub(impl)
+        if ub == "ub:memcpy-null@rfc1035RRPack" and int(toks[3]) > 0:
+            return "C37-optpack-memcpy-null"
+        return None
+    if toks[0] == "m" and ("decoded differently" in why or "differs from the encoded" in why):
+        ref = ref_decode(unhx(toks[1]))
+        if ref is None:
+            return None
+        dev = known_deviation(ref)
+        if dev and impl == dev[1] and (len(toks) < 3 or toks[2].replace("|", " ") == ref["show"]):
+            return dev[0]
+        return None
+    if toks[0] == "n" and "decoded differently" in why:
+        ns, off, pkt = int(toks[1]), int(toks[2]), unhx(toks[3])
+        try:
+            labels, end, hops, rootptr = ref_name(pkt, off)
+        except NotWF:
+            return None
+        total = sum(len(l) + 1 for l in labels)
+        if hops > MAXHOPS_IMPL and impl == "err":
+            return "C37-deep-pointer-chain-rejected"
+        if rootptr and hops <= MAXHOPS_IMPL and total + 1 <= ns and impl == "ok off=%d rdl=%d out=%s" % (end, total, hx(join(labels) + b".\0")):
+            return "C37-pointer-to-root-trailing-dot"
+    return None
+
+
+def shrink(line):
+    """delta debugging over the byte string only (the decimal fields are not hex; an expectation does not survive a cut)"""
+    toks = line.split(" ")
+    if toks[0] == "m":
+        if len(toks) > 2:
+            yield "m " + toks[1]
+            return
+        idx = 1
+    elif toks[0] == "n":
+        idx = 3
+    elif toks[0] == "q":
+        idx = 5
+    else:
+        return
+    tk = toks[idx]
+    if tk == "-":
+        return
+    n = len(tk) // 2
+    step = max(1, n // 2)
+    while step >= 1:
+        for off in range(0, n, step):
+            cand = tk[:off * 2] + tk[(off + step) * 2:]
+            yield " ".join(toks[:idx] + [cand or "-"] + toks[idx + 1:])
+        step //= 2
+
+
+def nontrivial(line, impl, model):
+    op = line[0]
+    _, body = split_ub(impl)
+    if op == "m":
+        return body.startswith("rc=") and not body.endswith(" null")
+    if op == "n":
+        return body.startswith("ok ")
+    return body.startswith("len=") or body.startswith("pkt=")
+
+
+def tag(line, impl, model):
+    toks = line.split(" ")
+    op = toks[0]
+    ub, body = split_ub(impl)
+    if impl.startswith("abort:"):
+        return op + " abort"
+    if op == "m":
+        src = "encoded" if len(toks) > 2 else "mutant"
+        if body.endswith(" null"):
+            return "m %s rejected" % src
+        f = parse_fields(body)
+        rc = int(f["rc"])
+        comp = "compressed" if "c0" in toks[1][24:] else "plain"
+        if rc < 0:
+            return "m %s rcode" % src
+        if rc == 1:
+            t = f["rr"].split("/")[1]
+            return "m %s %s an=1 %s" % (src, comp, {"1": "A", "28": "AAAA", "12": "PTR", "5": "CNAME"}.get(t, "other"))
+        return "m %s %s an=%s" % (src, comp, "0" if rc == 0 else "2+")
+    if op == "n":
+        return "n " + ("ok" if body.startswith("ok") else "err")
+    if op == "q":
+        return "q %s%s" % (toks[1].split(":")[0], " edns" if int(toks[3]) > 0 else "")
+    return op
